@@ -71,6 +71,7 @@ Tick(d) == /\ now + d <= MaxTime
 Calls ==
   \/ \E t \in Tids, a \in ToAddrs, s \in SealedOpts, p \in Payloads : SendRequest(t, a, s, p, now)
   \/ \E c \in OtherCls, a \in ToAddrs, p \in Payloads : SendOther(c, a, p)
+  \/ ("data" \in OtherCls /\ \E a \in ToAddrs, p \in Payloads : SendData(a, p))
   \/ \E t \in Tids, a \in FromAddrs, i \in IntegOpts : HandleResponse(t, a, i)
   \/ \E c \in InCls, a \in FromAddrs : HandleIncoming(c, a)
   \/ Poll(now)
